@@ -3,11 +3,21 @@
 quick tier, expect exit 1 (VIOLATION), then restore /repo. Usage: tools_sens.py [name ...]"""
 import glob, os, subprocess, sys, time
 HERE = os.path.dirname(os.path.abspath(__file__))
-REPO = '/repo'
+SRC = '/repo'
+REPO = '/tmp/verif_scratch_repo'     # scratch worktree: background runs keep using /repo undisturbed
 def sh(*a, **kw):
     return subprocess.run(a, capture_output=True, text=True, **kw)
 def main(names):
-    assert not sh('git', '-C', REPO, 'status', '--porcelain', '--untracked-files=no').stdout.strip(), '/repo has local changes'
+    sh('git', '-C', SRC, 'worktree', 'remove', '--force', REPO)
+    r = sh('git', '-C', SRC, 'worktree', 'add', '--detach', REPO, 'HEAD')
+    assert r.returncode == 0, r.stderr
+    try:
+        return _main(names)
+    finally:
+        sh('git', '-C', SRC, 'worktree', 'remove', '--force', REPO)
+        sh('git', '-C', SRC, 'worktree', 'prune')
+
+def _main(names):
     diffs = sorted(glob.glob(os.path.join(HERE, 'mutants', '*.diff')))
     res = []
     for d in diffs:
@@ -21,7 +31,7 @@ def main(names):
         try:
             for chk in checks:
                 t = time.time()
-                env = dict(os.environ)
+                env = dict(os.environ, VERIF_REPO=REPO)
                 p = sh('/venv/bin/python', '-m', 'sim', 'check', chk, '--tier', 'quick', cwd=HERE, env=env)
                 keys = [l.split('key=')[1].split(' ::')[0] for l in p.stdout.splitlines() if 'violation clause=' in l]
                 status = {0: 'MISSED', 1: 'caught', 2: 'harness-error'}.get(p.returncode, 'exit%d' % p.returncode)
